@@ -113,7 +113,7 @@ func spelled(s *ref.Struct, style int, decoys bool, salt string) *ref.Struct {
 	if decoys {
 		sf = append(sf,
 			reflect.StructField{Name: "Decoy0", Type: reflect.TypeOf(int32(0))},
-			reflect.StructField{Name: "decoy1", PkgPath: "github.com/cloudwego/frugal/zverif/checks", Type: reflect.TypeOf(""), Tag: `frugal:"77,default,string"`},
+			reflect.StructField{Name: "decoy1", PkgPath: "github.com/cloudwego/frugal/zverif/universe", Type: reflect.TypeOf(""), Tag: `frugal:"77,default,string"`},
 			reflect.StructField{Name: "Emb", Anonymous: true, Type: reflect.TypeOf(universe.Emb{})},
 		)
 	}
